@@ -192,8 +192,24 @@ func checkHistory(h []Rec, nkeys int, timeout time.Duration) CheckResult {
 			} else if !legalUpTo(ops, kept, 1, timeout) {
 				stage = "quiet"
 			}
-			res.V = &Verdict{Sig: "not-linearizable@" + stage,
-				Msg: fmt.Sprintf("the history of key k%d (%d operations) has no linearization; %s", k, len(ops), explain(kept, stage))}
+			sig := "not-linearizable@" + stage
+			if stage != "concurrent" {
+				sig += ":" + transition(kept, stage)
+			}
+			failed := ""
+			for _, r := range perKey[k] {
+				if r.Op != "get" && r.Err != "" {
+					if failed == "" && r.Op == "del" {
+						sig += "+failed-delete-on-key"
+					}
+					failed += r.String() + "; "
+				}
+			}
+			if failed != "" {
+				failed = " writes on the key that reported an error (modelled as no effect): " + failed
+			}
+			res.V = &Verdict{Sig: sig,
+				Msg: fmt.Sprintf("the history of key k%d (%d operations) has no linearization; %s%s", k, len(ops), explain(kept, stage), failed)}
 			return res
 		}
 	}
@@ -228,6 +244,37 @@ func legalUpTo(ops []porcupine.Operation, recs []*Rec, limit int, timeout time.D
 		}
 	}
 	return porcupine.CheckOperationsTimeout(registerModel, sub, timeout) != porcupine.Illegal
+}
+
+// transition names how the value seen by the reads of the failing stage
+// differs from the value seen by the stage before it.
+func transition(recs []*Rec, stage string) string {
+	cur, prev := -1, 0 // pseudo clients: quiet (-1) vs. the last client read; reopen (-2) vs. quiet
+	if stage == "reopen" {
+		cur, prev = -2, -1
+	}
+	var a, b *Rec
+	for _, r := range recs {
+		if r.Op != "get" {
+			continue
+		}
+		if r.C == cur {
+			a = r
+		} else if (prev == -1 && r.C == -1) || (prev == 0 && r.C >= 0 && (b == nil || r.Ret > b.Ret)) {
+			b = r
+		}
+	}
+	switch {
+	case a == nil || b == nil:
+		return "unknown"
+	case a.R == 0 && b.R != 0:
+		return "present->absent"
+	case a.R != 0 && b.R == 0:
+		return "absent->present"
+	case a.R != b.R:
+		return "value-changed"
+	}
+	return "same-value"
 }
 
 // explain renders the tail of a key history for the failure message.
